@@ -185,7 +185,7 @@ func dimsCmd(args []string) error {
 	}
 	// C06: profile sizes and chunk counts beyond the bounded grammar - 255 chunks in a seeded
 	// order among other segments, full-size (65519-byte) chunks, multi-MiB profiles
-	if *icc {
+	{ // (for C05 as well: the dimensions of a file whose profile comes in the largest legal number of chunks)
 		perm := rng.Perm(255)
 		var segs []string
 		for k, pi := range perm {
@@ -200,7 +200,20 @@ func dimsCmd(args []string) error {
 		if err := emit("jpeg", "["+strings.Join(segs, ",")+`,{"t":"SOS"}]`); err != nil {
 			return err
 		}
-		// the same with one chunk missing / duplicated: damaged
+	}
+	if *icc {
+		perm := rng.Perm(255)
+		var segs []string
+		for k, pi := range perm {
+			segs = append(segs, fmt.Sprintf(`{"t":"ICC","seq":%d,"total":255,"pid":%d}`, pi+1, 1000+pi+1))
+			if k%40 == 7 {
+				segs = append(segs, `{"t":"OTHER","kind":"app1"}`)
+			}
+			if k == 100 {
+				segs = append(segs, `{"t":"SOF","kind":2,"p":8,"h":33,"w":44,"nc":3}`)
+			}
+		}
+		// one chunk missing / duplicated: damaged
 		miss := append([]string{}, segs[:50]...)
 		miss = append(miss, segs[51:]...)
 		if err := emit("jpeg", "["+strings.Join(miss, ",")+`,{"t":"SOS"}]`); err != nil {
